@@ -47,6 +47,12 @@ type c11Input struct {
 	// cad
 	IntervalNs int64 `json:"interval_ns,omitempty"` // 0 = default (1h)
 	Periods    int   `json:"periods,omitempty"`
+	// cads (polls that take virtual time): per poll, its duration in permille of the interval
+	NSec  int   `json:"nsec,omitempty"`
+	Fracs []int `json:"fracs,omitempty"`
+	// cw (a Cache.Write held on a gate): what runs while the poll's write is held
+	Variant string `json:"variant,omitempty"` // lookup | lookup+refresh | refresh | close
+	NChg    int    `json:"nchg,omitempty"`    // how many declared secrets have a pending change
 }
 
 type c11CEnt struct {
@@ -102,6 +108,11 @@ type c11Svc struct {
 	failGet bool
 	reqT    []int64 // cad: virtual time of every conditional request
 	gated   bool
+	direct  bool    // cw: answer at once from the service state, log the request
+	reqLog  []string // cw: Gallina terms of the requests answered, in order
+	lat     func(poll int) time.Duration // cads: latency of each request of the poll-th poll
+	nsec    int
+	reqEnd  []int64 // cads: virtual time at which each request was answered
 }
 
 func c11NewSvc() *c11Svc {
@@ -157,9 +168,40 @@ func (s *c11Svc) Get(ctx context.Context, name string) (*api.SecretValue, error)
 
 func (s *c11Svc) GetIfChanged(ctx context.Context, name string, old api.SecretVersion) (*api.SecretValue, error) {
 	s.mu.Lock()
+	if s.direct {
+		defer s.mu.Unlock()
+		v, tok, present := s.activeOf(name)
+		respT := "re"
+		var sv *api.SecretValue
+		var err error = api.ErrNotFound
+		if present && v == uint32(old) {
+			err, respT = api.ErrValueNotChanged, "rn"
+		} else if present {
+			sv = &api.SecretValue{Version: api.SecretVersion(v), Value: append([]byte(nil), s.secs[name].vers[v]...)}
+			err, respT = nil, fmt.Sprintf("(rv %d %d)", v, tok)
+		}
+		s.reqLog = append(s.reqLog, fmt.Sprintf("St (Q %s false false) [oq (Some %d) %s]", coqBytes([]byte(name)), old, respT))
+		return sv, err
+	}
 	if !s.gated {
-		// cadence cases: answer at once, record the virtual time
+		// cadence cases: record the virtual time; answer at once or after the scripted latency
+		idx := len(s.reqT)
 		s.reqT = append(s.reqT, time.Now().UnixNano())
+		s.reqEnd = append(s.reqEnd, 0)
+		var d time.Duration
+		if s.lat != nil {
+			d = s.lat(idx / s.nsec)
+		}
+		s.mu.Unlock()
+		if d > 0 {
+			select {
+			case <-time.After(d):
+			case <-ctx.Done():
+				return nil, ctx.Err()
+			}
+		}
+		s.mu.Lock()
+		s.reqEnd[idx] = time.Now().UnixNano()
 		s.mu.Unlock()
 		return nil, api.ErrValueNotChanged
 	}
@@ -192,12 +234,37 @@ type c11Cache struct {
 	mu     sync.Mutex
 	data   []byte
 	writes [][]byte
+	failed map[int]bool // indices into writes of the documents whose Write was made to fail
+	failNext bool       // the next Write fails (nothing reaches the cache)
+	lastFailed map[int]bool
+	nw       int
+	// a write can be held on a gate: the document lands (is recorded) only when released
+	armed   bool
+	pending chan struct{}
+	gate    chan struct{}
 }
 
 func (c *c11Cache) Read() ([]byte, error) { return c.data, nil }
 func (c *c11Cache) Write(b []byte) error {
 	c.mu.Lock()
+	armed := c.armed
+	c.armed = false
+	c.mu.Unlock()
+	if armed {
+		c.pending <- struct{}{}
+		<-c.gate
+	}
+	c.mu.Lock()
 	defer c.mu.Unlock()
+	if c.failNext {
+		c.failNext = false
+		if c.failed == nil {
+			c.failed = map[int]bool{}
+		}
+		c.failed[len(c.writes)] = true
+		c.writes = append(c.writes, append([]byte(nil), b...))
+		return errors.New("scripted cache failure")
+	}
 	c.data = append([]byte(nil), b...)
 	c.writes = append(c.writes, c.data)
 	return nil
@@ -207,6 +274,8 @@ func (c *c11Cache) take() [][]byte {
 	defer c.mu.Unlock()
 	w := c.writes
 	c.writes = nil
+	c.lastFailed = c.failed
+	c.failed = nil
 	return w
 }
 
@@ -237,7 +306,7 @@ type c11Run struct {
 	obs     []string // human-readable trace
 	direct  string   // runtime violation, if any
 	// statistics for the non-triviality rule
-	pollsOK, pollsFail, installs, midChanges, joins, failsInj, cancels int
+	pollsOK, pollsFail, installs, midChanges, joins, failsInj, cancels, wfails int
 	// self-test material: index into steps of a step whose observation can be altered
 	altIdx int
 	altTo  string
@@ -272,8 +341,14 @@ func (r *c11Run) docTerm(b []byte) string {
 
 func (r *c11Run) writes() []string {
 	var out []string
-	for _, w := range r.cache.take() {
-		out = append(out, r.docTerm(w))
+	ws := r.cache.take()
+	for i, w := range ws {
+		t := r.docTerm(w)
+		if r.cache.lastFailed[i] {
+			t = "(off" + strings.TrimPrefix(t, "(ofl")
+			r.wfails++
+		}
+		out = append(out, t)
 	}
 	return out
 }
@@ -282,6 +357,16 @@ func (r *c11Run) emit(strict bool, ev string, outs []string) {
 	c := "St"
 	if !strict {
 		c = "Sb"
+	}
+	for _, o := range outs { // a Cache.Write of this step was made to fail
+		if strings.HasPrefix(o, "(off") {
+			if ev == "E_" {
+				ev = "EF"
+			} else if strict {
+				c = "Sf"
+			}
+			break
+		}
 	}
 	r.steps = append(r.steps, fmt.Sprintf("%s (%s) %s", c, ev, coqList(outs)))
 	r.obs = append(r.obs, ev+" => "+strings.Join(outs, " "))
@@ -434,6 +519,10 @@ func (r *c11Run) poll(op c11Op) {
 				r.srvOp(pre, true)
 			case "secret", "read", "lookup":
 				r.storeOp(pre)
+			case "wfail":
+				r.cache.mu.Lock()
+				r.cache.failNext = true
+				r.cache.mu.Unlock()
 			case "join":
 				r.emit(true, fmt.Sprintf("R %d", time.Now().UnixNano()), nil)
 				callers = append(callers, r.newCaller())
@@ -545,7 +634,7 @@ func (r *c11Run) poll(op c11Op) {
 			r.direct = "a Refresh call did not return although the poll is over"
 		}
 	}
-	if len(outs) > 0 && strings.HasPrefix(outs[0], "(ofl") {
+	if len(outs) > 0 && (strings.HasPrefix(outs[0], "(ofl") || strings.HasPrefix(outs[0], "(off")) {
 		r.installs++
 	}
 	if known {
@@ -634,6 +723,10 @@ func c11Scenario(in c11Input) (rec Record) {
 			r.srvOp(op, false)
 		case "secret", "read", "lookup":
 			r.storeOp(op)
+		case "wfail":
+			r.cache.mu.Lock()
+			r.cache.failNext = true
+			r.cache.mu.Unlock()
 		case "refresh", "tick":
 			r.poll(op)
 		}
@@ -664,6 +757,9 @@ func c11Scenario(in c11Input) (rec Record) {
 	}
 	if r.cancels > 0 {
 		rec.Tags = append(rec.Tags, "context-cancelled")
+	}
+	if r.wfails > 0 {
+		rec.Tags = append(rec.Tags, "cache-write-failed")
 	}
 	if in.HasC {
 		rec.Tags = append(rec.Tags, "startup-cache")
@@ -728,6 +824,371 @@ func c11Cadence(in c11Input) Record {
 	return rec
 }
 
+// c11CadenceSlow: the default ticker under virtual time with a service that takes time to answer.
+// Observed: start (first request) and end (last answer) of every complete poll.
+func c11CadenceSlow(in c11Input) Record {
+	i := in.IntervalNs
+	if i == 0 {
+		i = int64(time.Hour)
+	}
+	n := max(in.NSec, 1)
+	svc := c11NewSvc()
+	var names []string
+	for k := 0; k < n; k++ {
+		names = append(names, fmt.Sprintf("d%d", k))
+		svc.put(names[k])
+	}
+	svc.nsec = n
+	svc.lat = func(poll int) time.Duration {
+		if poll >= len(in.Fracs) {
+			return 0
+		}
+		return time.Duration(int64(in.Fracs[poll]) * (i / 1000) / int64(n))
+	}
+	t0 := time.Now().UnixNano()
+	st, err := setec.NewStore(context.Background(), setec.StoreConfig{
+		Client: svc, Secrets: names, PollInterval: time.Duration(in.IntervalNs), Logf: func(string, ...any) {},
+	})
+	if err != nil {
+		return Record{Kind: "cads", Input: in, Direct: &DirectVerdict{OK: false, What: "NewStore failed: " + err.Error()}}
+	}
+	total := int64(len(in.Fracs)+1)*(i+i/10) + 1
+	for _, f := range in.Fracs {
+		if f >= 900 {
+			total += int64(f) * (i / 1000)
+		}
+	}
+	time.Sleep(time.Duration(total))
+	st.Close()
+	svc.mu.Lock()
+	ts := append([]int64(nil), svc.reqT...)
+	te := append([]int64(nil), svc.reqEnd...)
+	svc.mu.Unlock()
+	var pairs []string
+	var obs [][2]int64
+	for k := 0; k+n <= len(ts); k += n {
+		if te[k+n-1] == 0 {
+			break // interrupted by Close
+		}
+		obs = append(obs, [2]int64{ts[k], te[k+n-1]})
+		pairs = append(pairs, fmt.Sprintf("(%d,%d)", ts[k], te[k+n-1]))
+	}
+	rec := Record{Kind: "cads", Input: in, Obs: map[string]any{"t0": t0, "polls": obs},
+		Coq: fmt.Sprintf("Cad2 %d %d %s", i, t0, coqList(pairs))}
+	rec.Key = fmt.Sprintf("cads %d %d %v", i, t0, obs)
+	rec.Nontrivial = len(obs) >= 3
+	rec.Tags = []string{"cadence-slow-polls"}
+	for _, f := range in.Fracs {
+		if f >= 1000 {
+			rec.Tags = append(rec.Tags, "poll-longer-than-interval")
+			break
+		}
+	}
+	if len(obs) < 2 {
+		rec.Direct = &DirectVerdict{OK: false, What: fmt.Sprintf("only %d complete polls", len(obs))}
+	}
+	c11Alt = ""
+	if len(obs) >= 2 {
+		alt := append([]string(nil), pairs...)
+		l := obs[len(obs)-1]
+		alt[len(alt)-1] = fmt.Sprintf("(%d,%d)", l[0]+1, l[1]+1)
+		c11Alt = fmt.Sprintf("Cad2 %d %d %s", i, t0, coqList(alt))
+	}
+	return rec
+}
+
+// c11CacheWrite: a poll with pending changes reaches its Cache.Write, which is HELD; meanwhile a
+// LookupSecret of a new name / a second Refresh / Close is started and given a bounded time to
+// complete (in the unchanged code they wait for the store lock, which the poll holds while it
+// writes); then the write is released.  Every document written, in the order in which the
+// writes landed, is compared with the model's (each write = document of the state at that write).
+func c11CacheWrite(in c11Input) (rec Record) {
+	r := &c11Run{in: in, svc: c11NewSvc(), cache: &c11Cache{pending: make(chan struct{}, 1), gate: make(chan struct{})},
+		handles: map[string]setec.Secret{}, altIdx: -1}
+	r.svc.direct = true
+	r.tick = &c11Ticker{ch: make(chan time.Time), done: make(chan struct{}, 1)}
+	var sv0, nameT []string
+	for _, n := range in.Names {
+		r.svc.put(n)
+	}
+	for _, n := range sortedKeys(r.svc.secs) {
+		v, t, _ := r.svc.activeOf(n)
+		sv0 = append(sv0, fmt.Sprintf("(%s,(%d,%d))", coqBytes([]byte(n)), v, t))
+	}
+	const now0 = int64(1700000000)
+	clock := func() time.Time { return time.Unix(now0, 0) }
+	st, err := setec.NewStore(context.Background(), setec.StoreConfig{
+		Client: r.svc, Secrets: append([]string(nil), in.Names[:in.NDecl]...), AllowLookup: true, Cache: r.cache,
+		PollTicker: r.tick, TimeNow: clock, Logf: func(string, ...any) {},
+	})
+	if err != nil {
+		return Record{Kind: "cw", Input: in, Direct: &DirectVerdict{OK: false, What: "NewStore failed: " + err.Error()}}
+	}
+	r.st = st
+	initOut := r.writes()
+	r.svc.mu.Lock()
+	r.svc.reqLog = nil
+	r.svc.mu.Unlock()
+	for k := 0; k < max(in.NChg, 1) && k < in.NDecl; k++ {
+		r.srvOp(c11Op{K: "srv", N: k, Sub: "new"}, false)
+	}
+	lname := in.Names[len(in.Names)-1] // the undeclared name
+	nowNs := now0 * 1e9
+	if in.Variant == "hold-lookup" {
+		return c11CacheWriteLookup(r, in, lname, now0, sv0, initOut)
+	}
+	// the poll; its apply's Cache.Write is held
+	r.cache.mu.Lock()
+	r.cache.armed = true
+	r.cache.mu.Unlock()
+	leader := make(chan error, 1)
+	go func() { leader <- st.Refresh(context.Background()) }()
+	select {
+	case <-r.cache.pending:
+	case <-time.After(5 * time.Second):
+		return Record{Kind: "cw", Input: in, Direct: &DirectVerdict{OK: false, What: "the poll never reached its Cache.Write"}}
+	}
+	var lk chan error
+	var joiner chan error
+	var closed chan struct{}
+	if strings.Contains(in.Variant, "refresh") {
+		joiner = make(chan error, 1)
+		go func() { joiner <- st.Refresh(context.Background()) }()
+	}
+	if strings.Contains(in.Variant, "lookup") {
+		lk = make(chan error, 1)
+		go func() {
+			h, err := st.LookupSecret(context.Background(), lname)
+			if err == nil {
+				r.handles[lname] = h
+			}
+			lk <- err
+		}()
+	}
+	if strings.Contains(in.Variant, "close") {
+		closed = make(chan struct{})
+		go func() { st.Close(); close(closed) }()
+	}
+	// bounded wait: may the others finish while the write is held?
+	early := false
+	var lkErr error
+	if lk != nil {
+		select {
+		case lkErr = <-lk:
+			early = true
+		case <-time.After(25 * time.Millisecond):
+		}
+	} else {
+		time.Sleep(5 * time.Millisecond)
+	}
+	close(r.cache.gate)
+	wait := func(what string, f func()) {
+		done := make(chan struct{})
+		go func() { f(); close(done) }()
+		select {
+		case <-done:
+		case <-time.After(5 * time.Second):
+			r.direct = what + " did not return after the cache write was released"
+		}
+	}
+	var leadErr, joinErr error
+	wait("Refresh", func() { leadErr = <-leader })
+	if joiner != nil && r.direct == "" {
+		wait("the second Refresh", func() { joinErr = <-joiner })
+	}
+	if lk != nil && !early && r.direct == "" {
+		wait("LookupSecret", func() { lkErr = <-lk })
+	}
+	if closed != nil && r.direct == "" {
+		wait("Close", func() { <-closed })
+	}
+	// the timeline, in the order in which the locked steps took place
+	W := r.cache.take()
+	nextW := func() []string {
+		if len(W) == 0 {
+			return nil
+		}
+		w := W[0]
+		W = W[1:]
+		return []string{r.docTerm(w)}
+	}
+	r.emit(true, fmt.Sprintf("R %d", nowNs), nil)
+	if joiner != nil {
+		r.emit(true, fmt.Sprintf("R %d", nowNs), nil)
+	}
+	r.svc.mu.Lock()
+	r.steps = append(r.steps, r.svc.reqLog...)
+	r.obs = append(r.obs, r.svc.reqLog...)
+	r.svc.reqLog = nil
+	r.svc.mu.Unlock()
+	emitEnd := func() {
+		outs := append(nextW(), c11Class(leadErr))
+		if joiner != nil {
+			outs = append(outs, c11Class(joinErr))
+		}
+		r.emit(true, "E_", outs)
+	}
+	emitLookup := func() {
+		r.emit(true, fmt.Sprintf("L %s %d false", coqBytes([]byte(lname)), now0), append(nextW(), "ol "+coqBool(lkErr == nil)))
+	}
+	if lk != nil && early {
+		emitLookup()
+		emitEnd()
+	} else {
+		emitEnd()
+		if lk != nil {
+			emitLookup()
+		}
+	}
+	if closed != nil {
+		r.emit(true, "X", nextW())
+	} else if r.direct == "" {
+		// quiescence: a poll that finds nothing to do writes nothing; what the cache holds must be exact
+		err := st.Refresh(context.Background())
+		r.emit(true, fmt.Sprintf("R %d", nowNs), nil)
+		r.svc.mu.Lock()
+		r.steps = append(r.steps, r.svc.reqLog...)
+		r.obs = append(r.obs, r.svc.reqLog...)
+		r.svc.reqLog = nil
+		r.svc.mu.Unlock()
+		W = append(W, r.cache.take()...)
+		outs := []string{}
+		for len(W) > 0 {
+			outs = append(outs, nextW()...)
+		}
+		r.emit(true, "E_", append(outs, c11Class(err)))
+		if h := r.handles[lname]; h != nil {
+			val := h.Get()
+			r.emit(true, fmt.Sprintf("G %s %d", coqBytes([]byte(lname)), now0), []string{fmt.Sprintf("ov (Some %d)", r.svc.token(val))})
+		}
+		st.Close()
+		r.emit(true, "X", r.writes())
+	}
+	for len(W) > 0 { // documents nobody accounts for
+		r.emit(true, "X", nextW())
+	}
+	for _, n := range in.Names[:in.NDecl] {
+		nameT = append(nameT, coqBytes([]byte(n)))
+	}
+	rec = Record{Kind: "cw", Input: in, Obs: r.obs,
+		Coq: fmt.Sprintf("Scn %s None %s %d true 0 %s %s", coqList(nameT), coqList(sv0), now0, coqList(initOut), coqList(r.steps))}
+	kb, _ := json.Marshal(in)
+	rec.Key = string(kb)
+	rec.Nontrivial = true
+	rec.Tags = []string{"cache-write-held", "cw:" + in.Variant}
+	if early {
+		rec.Tags = append(rec.Tags, "lookup-completed-while-write-held")
+	}
+	if r.direct != "" {
+		rec.Direct = &DirectVerdict{OK: false, What: r.direct}
+	}
+	c11Alt = ""
+	return rec
+}
+
+// c11CacheWriteLookup: the mirror image - the LOOKUP's Cache.Write is held while a poll with a
+// pending change is started and given a bounded time to complete.
+func c11CacheWriteLookup(r *c11Run, in c11Input, lname string, now0 int64, sv0, initOut []string) Record {
+	st := r.st
+	r.cache.mu.Lock()
+	r.cache.armed = true
+	r.cache.mu.Unlock()
+	lk := make(chan error, 1)
+	go func() {
+		h, err := st.LookupSecret(context.Background(), lname)
+		if err == nil {
+			r.handles[lname] = h
+		}
+		lk <- err
+	}()
+	select {
+	case <-r.cache.pending:
+	case <-time.After(5 * time.Second):
+		return Record{Kind: "cw", Input: in, Direct: &DirectVerdict{OK: false, What: "the lookup never reached its Cache.Write"}}
+	}
+	leader := make(chan error, 1)
+	go func() { leader <- st.Refresh(context.Background()) }()
+	early := false
+	var leadErr, lkErr error
+	select {
+	case leadErr = <-leader:
+		early = true
+	case <-time.After(25 * time.Millisecond):
+	}
+	close(r.cache.gate)
+	to := time.After(5 * time.Second)
+	select {
+	case lkErr = <-lk:
+	case <-to:
+		r.direct = "LookupSecret did not return after its cache write was released"
+	}
+	if !early && r.direct == "" {
+		select {
+		case leadErr = <-leader:
+		case <-to:
+			r.direct = "Refresh did not return after the cache write was released"
+		}
+	}
+	W := r.cache.take()
+	nextW := func() []string {
+		if len(W) == 0 {
+			return nil
+		}
+		w := W[0]
+		W = W[1:]
+		return []string{r.docTerm(w)}
+	}
+	emitPoll := func() {
+		r.emit(true, fmt.Sprintf("R %d", now0*1e9), nil)
+		r.svc.mu.Lock()
+		r.steps = append(r.steps, r.svc.reqLog...)
+		r.obs = append(r.obs, r.svc.reqLog...)
+		r.svc.reqLog = nil
+		r.svc.mu.Unlock()
+		r.emit(true, "E_", append(nextW(), c11Class(leadErr)))
+	}
+	emitLookup := func() {
+		r.emit(true, fmt.Sprintf("L %s %d false", coqBytes([]byte(lname)), now0), append(nextW(), "ol "+coqBool(lkErr == nil)))
+	}
+	if early {
+		emitPoll()
+		emitLookup()
+	} else {
+		emitLookup()
+		emitPoll()
+	}
+	if r.direct == "" {
+		err := st.Refresh(context.Background())
+		r.emit(true, fmt.Sprintf("R %d", now0*1e9), nil)
+		r.svc.mu.Lock()
+		r.steps = append(r.steps, r.svc.reqLog...)
+		r.obs = append(r.obs, r.svc.reqLog...)
+		r.svc.reqLog = nil
+		r.svc.mu.Unlock()
+		r.emit(true, "E_", append(r.writes(), c11Class(err)))
+		st.Close()
+		r.emit(true, "X", r.writes())
+	}
+	var nameT []string
+	for _, n := range in.Names[:in.NDecl] {
+		nameT = append(nameT, coqBytes([]byte(n)))
+	}
+	rec := Record{Kind: "cw", Input: in, Obs: r.obs,
+		Coq: fmt.Sprintf("Scn %s None %s %d true 0 %s %s", coqList(nameT), coqList(sv0), now0, coqList(initOut), coqList(r.steps))}
+	kb, _ := json.Marshal(in)
+	rec.Key = string(kb)
+	rec.Nontrivial = true
+	rec.Tags = []string{"cache-write-held", "cw:" + in.Variant}
+	if early {
+		rec.Tags = append(rec.Tags, "poll-completed-while-write-held")
+	}
+	if r.direct != "" {
+		rec.Direct = &DirectVerdict{OK: false, What: r.direct}
+	}
+	c11Alt = ""
+	return rec
+}
+
 // ---------------------------------------------------------------- generation
 
 func c11SrvOp(rng *rand.Rand, nNames int) c11Op {
@@ -752,8 +1213,10 @@ func c11Hooks(rng *rand.Rand, nNames int, intensity int) []c11Hook {
 				hs[i].Pre = append(hs[i].Pre, c11Op{K: "read", N: rng.IntN(nNames)})
 			case x < 86:
 				hs[i].Pre = append(hs[i].Pre, c11Op{K: "lookup", N: rng.IntN(nNames), Fail: rng.IntN(5) == 0})
-			case x < 92:
+			case x < 90:
 				hs[i].Pre = append(hs[i].Pre, c11Op{K: "join"})
+			case x < 92:
+				hs[i].Pre = append(hs[i].Pre, c11Op{K: "wfail"})
 			case x < 97:
 				hs[i].Pre = append(hs[i].Pre, c11Op{K: "cancel", N: rng.IntN(3)})
 			default:
@@ -808,6 +1271,8 @@ func c11Gen(rng *rand.Rand) c11Input {
 	nOps := 8 + rng.IntN(16)
 	for i := 0; i < nOps; i++ {
 		switch x := rng.IntN(100); {
+		case x < 3:
+			in.Ops = append(in.Ops, c11Op{K: "wfail"})
 		case x < 16:
 			d := int64(1+rng.IntN(30)) * 1e9
 			switch rng.IntN(5) {
@@ -921,6 +1386,54 @@ func c11SystematicCancel() []c11Input {
 	return out
 }
 
+// c11SystematicWFail: the Cache.Write of a poll's apply (with 0-2 joiners), of a lookup, of the
+// shutdown flush is made to fail; afterwards reads and a clean poll.
+func c11SystematicWFail() []c11Input {
+	var out []c11Input
+	for k := 1; k <= 3; k++ {
+		for j := 0; j <= 2; j++ {
+			for variant := 0; variant < 3; variant++ {
+				if variant > 0 && j > 0 {
+					continue
+				}
+				in := c11Input{Kind: "scn", NDecl: k, Allow: true}
+				for i := 0; i < k; i++ {
+					in.Names = append(in.Names, fmt.Sprintf("d%d", i))
+					in.Vers = append(in.Vers, 2)
+					in.Active = append(in.Active, 1)
+				}
+				in.Names = append(in.Names, "x/0")
+				in.Vers = append(in.Vers, 1)
+				in.Active = append(in.Active, 1)
+				for i := 0; i < k; i++ {
+					in.Ops = append(in.Ops, c11Op{K: "srv", N: i, Sub: "act", V: 1})
+				}
+				switch variant {
+				case 0: // the poll's write fails
+					hs := make([]c11Hook, k)
+					for x := 0; x < j; x++ {
+						hs[0].Pre = append(hs[0].Pre, c11Op{K: "join"})
+					}
+					in.Ops = append(in.Ops, c11Op{K: "wfail"}, c11Op{K: "refresh", Hooks: hs})
+				case 1: // a lookup's write fails, then a poll
+					in.Ops = append(in.Ops, c11Op{K: "wfail"}, c11Op{K: "lookup", N: k}, c11Op{K: "refresh"})
+				case 2: // the poll succeeds; the shutdown flush fails (armed last)
+					in.Ops = append(in.Ops, c11Op{K: "refresh"})
+				}
+				for i := 0; i < k; i++ {
+					in.Ops = append(in.Ops, c11Op{K: "secret", N: i}, c11Op{K: "read", N: i})
+				}
+				in.Ops = append(in.Ops, c11Op{K: "srv", N: 0, Sub: "act", V: 0}, c11Op{K: "refresh"}, c11Op{K: "read", N: 0})
+				if variant == 2 {
+					in.Ops = append(in.Ops, c11Op{K: "wfail"})
+				}
+				out = append(out, in)
+			}
+		}
+	}
+	return out
+}
+
 func runC11(o Opts) {
 	out := NewOut(o.Out)
 	inTest(func(t *testing.T) {
@@ -928,17 +1441,24 @@ func runC11(o Opts) {
 		var selfs []Record
 		runOne := func(in c11Input, corpus string) {
 			var rec Record
-			bubble(t, func(t *testing.T) {
-				if in.Kind == "cad" {
-					rec = c11Cadence(in)
-				} else {
-					rec = c11Scenario(in)
-				}
-			})
+			if in.Kind == "cw" { // real goroutines, real time (a goroutine blocked on the store's mutex is not "durably blocked" for synctest)
+				rec = c11CacheWrite(in)
+			} else {
+				bubble(t, func(t *testing.T) {
+					switch in.Kind {
+					case "cad":
+						rec = c11Cadence(in)
+					case "cads":
+						rec = c11CadenceSlow(in)
+					default:
+						rec = c11Scenario(in)
+					}
+				})
+			}
 			rec.Corpus = corpus
 			id := out.n
 			out.Emit(rec)
-			if c11Alt != "" && len(selfs) < 12 && (id%7 == 0 || in.Kind == "cad" && id%5 == 0) && rec.Direct == nil {
+			if c11Alt != "" && len(selfs) < 12 && (id%7 == 0 || (in.Kind == "cad" || in.Kind == "cads") && id%5 == 0) && rec.Direct == nil {
 				s := rec
 				s.Coq = c11Alt
 				s.SelfTest = true
@@ -959,6 +1479,9 @@ func runC11(o Opts) {
 			runOne(in, "")
 		}
 		for _, in := range c11SystematicCancel() {
+			runOne(in, "")
+		}
+		for _, in := range c11SystematicWFail() {
 			runOne(in, "")
 		}
 		n := 300
@@ -986,6 +1509,43 @@ func runC11(o Opts) {
 				per = 3
 			}
 			runOne(c11Input{Kind: "cad", IntervalNs: iv, Periods: per}, "")
+		}
+		// polls that take virtual time: 1%, 10%, 40% of the interval, now and then longer than it
+		slowIvs := []int64{0, int64(time.Second), int64(time.Minute), 12345678901, int64(37 * time.Hour), int64(10 * time.Millisecond)}
+		nSlow := 36
+		if o.Tier == "thorough" {
+			nSlow = 400
+		}
+		for i := 0; i < nSlow; i++ {
+			in := c11Input{Kind: "cads", IntervalNs: slowIvs[i%len(slowIvs)], NSec: 1 + i%4}
+			if i >= 2*len(slowIvs) {
+				in.IntervalNs = int64(time.Millisecond) + crng.Int64N(int64(time.Hour))
+			}
+			np := 3 + crng.IntN(4)
+			for k := 0; k < np; k++ {
+				f := []int{10, 100, 400}[(i+k)%3]
+				if i%3 == 2 {
+					f = 1 + crng.IntN(850)
+				}
+				if i%4 == 1 && k == 1 {
+					f = []int{1300, 2500, 1000}[(i/4)%3] // longer than one interval
+				}
+				in.Fracs = append(in.Fracs, f)
+			}
+			runOne(in, "")
+		}
+		// a Cache.Write held on a gate
+		for nd := 1; nd <= 3; nd++ {
+			for _, variant := range []string{"lookup", "lookup+refresh", "refresh", "close", "hold-lookup"} {
+				for nchg := 1; nchg <= nd; nchg += 2 {
+					in := c11Input{Kind: "cw", NDecl: nd, Variant: variant, NChg: nchg}
+					for i := 0; i < nd; i++ {
+						in.Names = append(in.Names, fmt.Sprintf("d%d", i))
+					}
+					in.Names = append(in.Names, "x/new")
+					runOne(in, "")
+				}
+			}
 		}
 		for _, s := range selfs {
 			out.Emit(s)
